@@ -252,6 +252,8 @@ def has_compat(prog, rep):
                 return ip.Str(("seq", "c"))
             if name in ("nfkc",) and "UnicodeNormalization" in p:
                 src = a0
+                if isinstance(src, ip.Opq) and src.kind == "once" and isinstance(src.data[0], ip.Sym) and src.data[0].name == "c":
+                    src = src.data[0]  # std::iter::once(c).nfkc(): the one-character sequence [c]
                 if (isinstance(src, ip.Sym) and src.name == "c") or (isinstance(src, ip.Str) and src.tag == ("seq", "c")):
                     case = st.choose(("nfkc-case",), ["A", "B", "C"])
                     return ip.Opq("nfkc-seq", (case, 0))
